@@ -13,9 +13,9 @@
 id=$1; n=$2; shift 2
 checks=("$@"); [ ${#checks[@]} -eq 0 ] && checks=($id)
 src=/tmp/mut/$id/out
-wt=/tmp/mconf/$id-m$n
+wt=/tmp/mconf/$id-m$n${WT_SUFFIX}
 logs=/tmp/mconf/logs; mkdir -p $logs
-sum=$logs/$id-m$n.summary; : > $sum
+sum=$logs/$id-m$n.summary${WT_SUFFIX}; : > $sum
 git -C /repo worktree remove --force $wt >/dev/null 2>&1
 git -C /repo worktree add --detach $wt HEAD -q || exit 2
 demo=$src/m${n}_demo.py
@@ -24,19 +24,18 @@ rundemo() {
     *.py) (cd $wt && PYTHONPATH=$wt timeout 1500 /venv/bin/python -m pytest -q -p no:cacheprovider --timeout=600 $demo > $1 2>&1; echo $?) ;;
   esac
 }
-rc0=$(rundemo $logs/$id-m$n.demo_pristine.log)
-echo "demo_pristine_rc=$rc0" >> $sum
+if [ "${SKIP_DEMO:-0}" != "1" ]; then rc0=$(rundemo $logs/$id-m$n.demo_pristine.log); echo "demo_pristine_rc=$rc0" >> $sum; fi
 if ! git -C $wt apply $src/m$n.diff; then echo "patch_applies=no" >> $sum; git -C /repo worktree remove --force $wt; cat $sum; exit 2; fi
 echo "patch_applies=yes" >> $sum
 (cd $wt && /venv/bin/python -m compileall -q mistral > /dev/null) && echo "compiles=yes" >> $sum || echo "compiles=no" >> $sum
-rc1=$(rundemo $logs/$id-m$n.demo_mutant.log)
-echo "demo_mutant_rc=$rc1" >> $sum
+if [ "${SKIP_DEMO:-0}" != "1" ]; then rc1=$(rundemo $logs/$id-m$n.demo_mutant.log); echo "demo_mutant_rc=$rc1" >> $sum; fi
 if [ "${SKIP_SUITE:-0}" != "1" ]; then
   (cd $wt && PYTHONPATH=$wt timeout 3000 /venv/bin/python -m pytest -q -p no:cacheprovider --timeout=900 -n ${SUITE_N:-5} mistral/tests > $logs/$id-m$n.suite.log 2>&1)
   echo "suite: $(tail -1 $logs/$id-m$n.suite.log)" >> $sum
   grep -E "^(FAILED|ERROR) " $logs/$id-m$n.suite.log | grep -v "test_func\b" | sed 's/^/suite_nonpass: /' >> $sum
 fi
 cd "$(dirname "$0")/.."
+[ "${SKIP_CHECKS:-0}" = "1" ] && checks=()
 for c in "${checks[@]}"; do
   log=$logs/$id-m$n.check_$c.log
   PYTHONPATH=$wt VERIF_REPO=$wt VERIF_REPLAY_DIR=/tmp/mconf/replays/$id-m$n ./check $c --tier quick --no-evidence ${CHECK_ARGS} > $log 2>&1
